@@ -15,6 +15,7 @@ def run(ctx):
         "the id is the stem of the opened file, the fall-through raises KeyError. Combined: the only writer is "
         "insert-if-absent keyed by item.id over every value of the member (first wins). Records are wrapped in "
         "CircularRecord before the entity is built; find_resistance returns only values of the antibiotics table or raises."
+        ' Lookup succeeds only if characterisation works: the characterize/isabstract lemmas (C05) run here too. known-resistance is a key-provenance analysis (the key under which the table is read comes from the labels that were matched against the table). filesystem-keyerror#open: a path is opened only behind isfile() or a handler covering both fs.errors.ResourceNotFound and FileExpected.'
     )
     r.not_decided = ["fs.filterdir glob semantics", "GenBank parsing"]
     ctx.guard(registry_rules, ctx, "C20")
